@@ -114,7 +114,7 @@ type Lab struct {
 	planConfig plan.Configuration
 	ownExec    bool
 	id         string
-	cancel  context.CancelFunc
+	cancel     context.CancelFunc
 
 	mu    sync.Mutex // serialises Run
 	logMu sync.Mutex // guards run / the request log
@@ -225,8 +225,8 @@ func NewLab(cfg *Config, u *Universe, exec *ExecServer, opts EngineOptions) (*La
 	return l, nil
 }
 
-func (l *Lab) superID() string           { return l.id + "_super" }
-func (l *Lab) subID(name string) string  { return l.id + "_" + name }
+func (l *Lab) superID() string          { return l.id + "_super" }
+func (l *Lab) subID(name string) string { return l.id + "_" + name }
 
 // SetUniverse (re)defines the supergraph and all subgraph schemas over u in the executor; the
 // engine (and its plan cache) is kept.
@@ -478,7 +478,6 @@ func (l *Lab) Validate(operation string) error {
 
 // Trunc shortens a string for messages.
 func Trunc(s string, n int) string { return trunc(s, n) }
-
 
 // Plan plans the operation with a planner of its own over the same data sources and returns the
 // post-processed fetch tree pretty-printed (diagnostics; Run uses the engine's own planner).
